@@ -254,9 +254,20 @@ FORMS = _exit_forms() + [
     "ASSERT: [1, 2].reduce(hostcheck) === true && [1].filter(hostcheck).length === 1 && [1].some(hostcheck) && [1].every(hostcheck) && [5].find(hostcheck) === 5",
     "ASSERT: hostcheck.call(null, undefined, null) === true && hostcheck.apply(null, [1, 'a', {}]) === true && hostcheck.bind(null, 1)(2) === true",
     # values without a JavaScript counterpart become undefined at every depth of what the embedder hands in
-    "ASSERT: typeof cfg.owner === 'undefined' && cfg.owner === undefined && cfg.l[0] === undefined && cfg.l.length === 3 && cfg.d.o === undefined && cfg.t === undefined",
-    "ASSERT: var n = 0; for (var k in cfg) { if (cfg[k] === undefined) n++; } n === 2",
+    "ASSERT: typeof cfg.owner === 'undefined' && cfg.owner === undefined && cfg.l[0] === undefined && cfg.l.length === 3 && cfg.d.o === undefined && cfg.t.length === 2 && cfg.c === undefined",
+    "ASSERT: var n = 0; for (var k in cfg) { if (cfg[k] === undefined) n++; } n === 2",      # (owner and c; a tuple converts like a list)
     "ASSERT: JSON.stringify(cfg.l) === '[null,null,1]'", "cfg", "cfg.l.concat(cfg.l)", "Object.values(cfg.d)",
+    # ... and of what an exposed host function RETURNS, also when it is used as an accessor or given a script callback's receiver
+    "ASSERT: hostweird() === undefined && hostweirdlist()[0] === undefined && hostweirdlist()[1] === null && hostweirdlist().length === 3 && hostweirdlist()[2].k === undefined",
+    "hostweird()", "hostweirdlist()", "[hostweird(), hostweirdlist()]", "({a: hostweird()})",
+    "ASSERT: var o = {}; Object.defineProperty(o, 'x', {get: hostnone, enumerable: true}); o.x === undefined && Object.values(o)[0] === undefined && Object.entries(o)[0][1] === undefined",
+    "ASSERT: var o = {}; Object.defineProperty(o, 'x', {get: hostlist, enumerable: true}); Array.isArray(o.x) && Array.isArray(Object.values(o)[0]) && Object.assign({}, o).x.length === 2",
+    "var o = {}; Object.defineProperty(o, 'x', {get: hostweird, enumerable: true}); [o.x, Object.values(o), Object.entries(o)]",
+    "ASSERT: [1].map(function () { return this === undefined; })[0] === true && [1].filter(function () { return this === undefined; }).length === 1",
+    "ASSERT: [1, 2].reduce(function (a, b) { return this === undefined; }) === true && [2, 1].sort(function (a, b) { return (this === undefined) ? a - b : b - a; })[0] === 1",
+    "ASSERT: 'a'.replace(/a/, function () { return String(this === undefined); }) === 'true' && 'a'.replace('a', function () { return String(this === undefined); }) === 'true'",
+    "ASSERT: [1].map(function () { return hostcheck(this); })[0] === true && [1].forEach(function () { hostkeep(this); }) === undefined",
+    "[1].map(function () { return this; })", "[1].map(function () { return [this, {t: this}]; })",
 ]
 
 
@@ -265,8 +276,9 @@ def c03_forms(tier="quick", seed=0):
     out = []
     extra = {"hostfn": (lambda *a: 1), "hostlist": (lambda: [1, 2]), "hostdict": (lambda: {"a": 1}), "hostnone": (lambda: None),
              "hosttuple": (lambda: (1, 2)), "hostid": (lambda x, *a: x),
-             "hostcheck": (lambda *a: all(is_js_value(x) for x in a)),
-             "cfg": {"owner": {1, 2}, "l": [b"x", object(), 1], "d": {"o": frozenset()}, "t": (1, 2), "ok": "s"}}
+             "hostcheck": (lambda *a: all(is_js_value(x) for x in a)), "hostkeep": (lambda *a: None),
+             "hostweird": (lambda: {1, 2}), "hostweirdlist": (lambda: [object(), None, {"k": frozenset()}]),
+             "cfg": {"owner": {1, 2}, "l": [b"x", object(), 1], "d": {"o": frozenset()}, "t": (1, 2), "c": complex(1, 2), "ok": "s"}}
     for i, form in enumerate(FORMS):
         bad = None
         n = 0
